@@ -128,6 +128,20 @@ def c04_one(ts, tsname, x, backend):
         for col in t:
             if t2.get(col) is not t[col]:
                 F(f"column {col!r}: infer_type(cast_to_inferred(df)) = {t2.get(col)} but infer_type(df) = {t[col]}", f"not-fixpoint:frame:{t[col]}->{t2.get(col)}")
+        if not fails:
+            # casting the cast frame again changes nothing: same shape, index, columns, dtypes and cells
+            try:
+                c2 = ts.cast_to_inferred(c)
+            except Exception as e:  # noqa
+                F(f"casting the already cast frame raised {type(e).__name__}", f"recast-raises:frame:{type(e).__name__}")
+                return fails
+            if c2.shape != c.shape or list(c2.columns) != list(c.columns) or not c2.index.equals(c.index) or len(c) != len(x):
+                F(f"cast frame has shape {c.shape} / index {list(c.index)[:6]} (input {x.shape} / {list(x.index)[:6]}), cast again {c2.shape} / {list(c2.index)[:6]}", "recast-changes:frame:shape")
+            else:
+                for col in c.columns:
+                    if c.columns.is_unique and not same_series(c2[col], c[col]):
+                        F(f"column {col!r}: cast_to_inferred applied to the already cast frame changed it (dtype {c[col].dtype} -> {c2[col].dtype})", f"recast-changes:frame:{t.get(col)}")
+                        break
         return fails
     try:
         t2 = ts.infer_type(c)
